@@ -5,7 +5,7 @@
      tokens:  [ names ]
      req:     [ ep key has_filename sigtype_ok digest_ok flags_ok peer peer_trusted [[hop trusted]...] [[fp ca]...] [[fp ca]...] ]
    output: [ kind a b [listing]  ip proxied ]   kind 0 = status a ; 1 = touch token a key b ; 2 = listing *)
-From Relic Require Import Base.Prelude Base.Val Generated.C04_gen C04.Model C04.History.
+From Relic Require Import Base.Prelude Base.Val Generated.C04_gen C04.Model C04.History C04.Names.
 
 Definition vkey (v : val) : Z * keyconf :=
   (vz (vnth 0 v), mkK (vz (vnth 1 v)) (vz (vnth 2 v)) (map vz (vl (vnth 3 v))) (vbool (vnth 4 v))).
@@ -58,8 +58,32 @@ Definition run_history (v : val) : val :=
   let rqs := map vhreq (vl (vnth 4 v)) in
   VL (map (fun p => out_val (fst p) (snd p)) (combine rqs (hrun cf fresh rqs))).
 
+(* key names end to end (C04/Names.v):
+   input: [ 2 keys clients tokens mats workers req ]
+     mats:    [ [entry keypair certpair tokencertpair] ... ]      workers: [ token names opened through token/worker ]
+   output: [ kind a b [listing] ip proxied  fkind f1 f2 f3 f4 ]
+     fkind 0 none ; 1 failed after the token was asked (f1 = error class) ; 2 signed: f1 entry whose private key signed,
+     f2 its key pair, f3 pair of the certificate attached, f4 entry named by the audit record ; 3 disclosed: f1 entry, f2 pair *)
+Definition vmat (v : val) : Z * mat := (vz (vnth 0 v), mkM (vz (vnth 1 v)) (vz (vnth 2 v)) (vz (vnth 3 v))).
+Definition fin_val (f : fin) : list val :=
+  match f with
+  | FErr e => [VZ 1; VZ e; VZ 0; VZ 0; VZ 0]
+  | FSigned m pr cp au => [VZ 2; VZ m; VZ pr; VZ cp; VZ au]
+  | FDisclosed m cp => [VZ 3; VZ m; VZ cp; VZ 0; VZ 0]
+  end.
+Definition run_names (v : val) : val :=
+  let cf := mkCfg (map vkey (vl (vnth 1 v))) (map vclient (vl (vnth 2 v))) (map vz (vl (vnth 3 v))) in
+  let nc := mkN cf (map vmat (vl (vnth 4 v))) (map vz (vl (vnth 5 v))) in
+  let rq := vreq (vnth 6 v) in
+  let '(ip, proxied) := fst (identity cf rq) in
+  match handle_e nc rq with
+  | EStatus c => VL [VZ 0; VZ c; VZ 0; VL []; VZ ip; of_bool proxied; VZ 0; VZ 0; VZ 0; VZ 0; VZ 0]
+  | ETouch t k f => VL ([VZ 1; VZ t; VZ k; VL []; VZ ip; of_bool proxied] ++ fin_val f)
+  | EListing l => VL [VZ 2; VZ 0; VZ 0; VZs l; VZ ip; of_bool proxied; VZ 0; VZ 0; VZ 0; VZ 0; VZ 0]
+  end.
+
 Definition run (v : val) : val :=
   match vnth 0 v with
-  | VZ _ => run_history v
+  | VZ z => if z =? 2 then run_names v else run_history v
   | _ => run_single v
   end.
